@@ -74,7 +74,7 @@ theorem step_new (a : Acc) (s : FE) (hrel : Rel a s) (T t : Nat) (idx : Nat) :
     have hinv : CallInv none { cid := a.infos.length, issueT := t, T := T, preOpen := (none : Option Nat).isNone }
         (newCall s.calls.length t T) :=
       ⟨by simp [newCall, hlen], rfl, rfl, by simp [newCall], by simp [newCall], by simp [newCall],
-        by simp, by simp [newCall], by simp [newCall]⟩
+        by simp, by simp [newCall], by simp [newCall], by simp [newCall]⟩
     refine ⟨hinv, ?_, note1_first _ _ (by simp [newCall]) (Or.inl rfl)⟩
     intro c
     apply spec_pending a' idx c _ _ _ (by simp [newCall]) rfl
@@ -96,7 +96,7 @@ theorem step_new (a : Acc) (s : FE) (hrel : Rel a s) (T t : Nat) (idx : Nat) :
       have hinv : CallInv (some t1) { cid := a.infos.length, issueT := t, T := 0, preOpen := (some t1).isNone }
           { cid := s.calls.length, issueT := t, T := 0, phase := .live none, evtSet := false, lowerGot := true,
             sets := [] } :=
-        ⟨by simp [hlen], rfl, rfl, by simp, by simp, by simp, by simp, by simp, fun _ => rfl⟩
+        ⟨by simp [hlen], rfl, rfl, by simp, by simp, by simp, by simp, by simp, fun _ => rfl, by simp⟩
       refine ⟨hinv, ?_, note1_first _ _ (by simp) (Or.inl rfl)⟩
       intro c
       apply spec_pending a' idx c _ _ _ rfl rfl
@@ -105,7 +105,7 @@ theorem step_new (a : Acc) (s : FE) (hrel : Rel a s) (T t : Nat) (idx : Nat) :
       have hinv : CallInv (some t1) { cid := a.infos.length, issueT := t, T := T, preOpen := (some t1).isNone }
           { cid := s.calls.length, issueT := t, T := T, phase := .live (some (roundUp (t + T))), evtSet := false,
             lowerGot := true, sets := [] } :=
-        ⟨by simp [hlen], rfl, rfl, by simp, by simp, by simp, by simp, by simp; omega, by simp⟩
+        ⟨by simp [hlen], rfl, rfl, by simp, by simp, by simp, by simp, by simp; omega, by simp, by simp⟩
       refine ⟨hinv, ?_, note1_first _ _ (by simp) (Or.inl rfl)⟩
       intro c
       apply spec_pending a' idx c _ _ _ rfl rfl
@@ -194,13 +194,17 @@ theorem after_step (a : Acc) (s : FE) (hrel : Rel a s) (op : Op) (hok : opOk s o
         exact ⟨(this 0).1, fun c => (this c).2.1, (this 0).2.2⟩
   | lower c0 o t =>
     have hoa : (a.after (.lower c0 o t)).openAt = a.openAt := rfl
-    have hall : ∀ cl ∈ s.calls, cl.cid = c0 → cl.lowerGot = true := by
+    have hall : ∀ cl ∈ s.calls, cl.cid = c0 → cl.lowerGot = true ∧
+        (o = .timeout → 0 < cl.T ∧ cl.issueT + cl.T ≤ t) := by
       intro cl hcl hc
       unfold opOk at hok
       simp only [Bool.and_eq_true, List.all_eq_true] at hok
       have := hok.2.2 cl hcl
       simp [hc] at this
-      exact this.1
+      refine ⟨this.1, fun ho => ?_⟩
+      rcases this.2 with h | h
+      · exact absurd ho h
+      · exact h
     refine ⟨?_, hrel.openNone⟩
     show List.Forall₂ _ (a.infos.map _) (s.calls.map _)
     rw [List.forall₂_map_left_iff, List.forall₂_map_right_iff]
@@ -212,7 +216,7 @@ theorem after_step (a : Acc) (s : FE) (hrel : Rel a s) (op : Op) (hok : opOk s o
       simp only [if_pos hc, if_pos hic]
       have := fun c => step_respond a.openAt (a.after (.lower c0 o t)) hoa idx c (.lower c0 o t) o i
           { i with posts := i.posts ++ [o] } cl hg.1 hg.2 ⟨rfl, rfl, rfl, rfl, rfl⟩ (by simp)
-          (hall cl hcl hc) (fun due hp => hpunct cl hcl due hp)
+          (hall cl hcl hc).1 (hall cl hcl hc).2 (fun due hp => hpunct cl hcl due hp)
       exact ⟨(this 0).1, fun c => (this c).2.1, (this 0).2.2⟩
     · have hic : ¬ i.cid = c0 := fun h => hc (hcid.symm.trans h)
       simp only [if_neg hc, if_neg hic]
@@ -336,6 +340,28 @@ theorem C01_at_most_once (ops : List Op) (hok : opsOk FE.init ops = true) :
       intro cl h
       rcases List.mem_cons.mp h with h | h
       · subst h; exact ⟨hab.1.setsLe, hab.1.overIff⟩
+      · exact ih cl h
+  exact this _ _ hrel.calls cl hcl
+
+/-- **TimeoutError is never delivered before t+T.**  In every reachable state, a result that was
+    set to TimeoutError at time `t` belongs to a call with a timeout `T > 0` issued at `t₀` with
+    `t₀ + T ≤ t` — whether it came from the call's timer, from the expired-at-dispatch path, or
+    from a sink below (which `opsOk` constrains to post TimeoutError only after the deadline,
+    the obligation discharged for the serial transport by its `gevent.Timeout(deadline − now)`). -/
+theorem C01_timeout_not_early (ops : List Op) (hok : opsOk FE.init ops = true) :
+    ∀ cl ∈ (runOps FE.init ops).calls, ∀ t, (t, Outcome.timeout) ∈ cl.sets →
+      0 < cl.T ∧ cl.issueT + cl.T ≤ t := by
+  obtain ⟨a, hrel⟩ := reachable_rel ops {} FE.init ⟨by simp [FE.init], .nil⟩ hok
+  intro cl hcl
+  have : ∀ (infos : List CallInfo) (calls : List Call), List.Forall₂ (Good a.openAt) infos calls →
+      ∀ cl ∈ calls, ∀ t, (t, Outcome.timeout) ∈ cl.sets → 0 < cl.T ∧ cl.issueT + cl.T ≤ t := by
+    intro infos calls h
+    induction h with
+    | nil => intro cl h; cases h
+    | cons hab _ ih =>
+      intro cl h
+      rcases List.mem_cons.mp h with h | h
+      · subst h; exact hab.1.tmo
       · exact ih cl h
   exact this _ _ hrel.calls cl hcl
 
